@@ -49,7 +49,26 @@ def to_rat(t):
         if isinstance(v, float) and v != v:
             return Rat.sym('nan')
         return Rat.const(Fraction(v) if isinstance(v, int) else Fraction(str(v)))
-    return Rat.atom(Sym('<' + key(t) + '>'))
+    nm = '<' + key(t) + '>'
+    ATOMS[nm] = t
+    return Rat.atom(Sym(nm))
+
+
+ATOMS = {}      # atom name -> the term it stands for (so that arithmetic can be taken apart again)
+
+
+def atom_term(a):
+    """the term behind an atom of an arithmetic term (None for anything else)"""
+    return ATOMS.get(getattr(a, 'name', None))
+
+
+def single_atom_term(r):
+    """the term t when the Rat r is exactly the atom standing for t"""
+    if isinstance(r, Rat) and r.d.is_const() and len(r.n.t) == 1:
+        (mm, c), = r.n.t.items()
+        if len(mm) == 1 and mm[0][1] == 1 and c == r.d.const_value():
+            return atom_term(mm[0][0])
+    return None
 
 
 def from_rat(r):
@@ -601,7 +620,15 @@ def resolve(t, decide):
     if not isinstance(t, tuple) or not t:
         return t
     if t[0] == 'arith':
-        return t
+        from .sym import subst
+
+        def f(a):
+            at = atom_term(a)
+            if at is None:
+                return None
+            r2 = resolve(at, decide)
+            return to_rat(r2) if key(r2) != key(at) else None
+        return from_rat(subst(t[1], f))
     if t[0] == 'phi':
         c = resolve(t[1], decide)
         d = decide(c)
